@@ -4,6 +4,7 @@ import (
 	"encoding/json"
 	"fmt"
 	"go/types"
+	"golang.org/x/tools/go/ssa/ssautil"
 	"os"
 	"path/filepath"
 	"sort"
@@ -135,13 +136,90 @@ func phases() *phaseTable {
 // isConfigPhase reports whether fn (or the function it is nested in) is a
 // configuration-phase function.
 func isConfigPhase(fn *ssa.Function) bool {
-	name := an.FuncName(an.Outermost(fn))
+	o := an.Outermost(fn)
+	if listedConfigPhase(o) {
+		return true
+	}
+	return configHelpers(o.Prog)[o]
+}
+
+func listedConfigPhase(o *ssa.Function) bool {
+	name := an.FuncName(o)
 	for _, c := range phases().ConfigPhase {
 		if c == name {
 			return true
 		}
 	}
 	return false
+}
+
+var configHelperCache = map[*ssa.Program]map[*ssa.Function]bool{}
+
+// configHelpers: unexported module functions all of whose (static) call sites are in
+// configuration-phase functions are configuration-phase themselves (a registration routine split
+// into helpers), to a fixpoint.
+func configHelpers(prog *ssa.Program) map[*ssa.Function]bool {
+	if m, ok := configHelperCache[prog]; ok {
+		return m
+	}
+	out := map[*ssa.Function]bool{}
+	configHelperCache[prog] = out
+	callers := map[*ssa.Function][]*ssa.Function{}
+	escapes := map[*ssa.Function]bool{} // used as a value: callers unknown
+	var fns []*ssa.Function
+	for f := range ssautil.AllFunctions(prog) {
+		if f.Pkg == nil || !an.IsModulePkg(f.Pkg.Pkg) || f.Blocks == nil {
+			continue
+		}
+		fns = append(fns, f)
+	}
+	for _, f := range fns {
+		for _, b := range f.Blocks {
+			for _, in := range b.Instrs {
+				if ci, ok := in.(ssa.CallInstruction); ok {
+					if callee := ci.Common().StaticCallee(); callee != nil {
+						callers[callee] = append(callers[callee], an.Outermost(f))
+					}
+				}
+				for _, op := range in.Operands(nil) {
+					if op == nil || *op == nil {
+						continue
+					}
+					if g, ok := (*op).(*ssa.Function); ok {
+						if ci, isCall := in.(ssa.CallInstruction); !isCall || ci.Common().Value != ssa.Value(g) {
+							escapes[g] = true
+						}
+					}
+				}
+			}
+		}
+	}
+	for changed := true; changed; {
+		changed = false
+		for _, f := range fns {
+			if f.Parent() != nil || out[f] || listedConfigPhase(f) || escapes[f] {
+				continue
+			}
+			if f.Object() != nil && f.Object().Exported() {
+				continue
+			}
+			cs := callers[f]
+			if len(cs) == 0 {
+				continue
+			}
+			all := true
+			for _, c := range cs {
+				if !listedConfigPhase(c) && !out[c] {
+					all = false
+				}
+			}
+			if all {
+				out[f] = true
+				changed = true
+			}
+		}
+	}
+	return out
 }
 
 // runPhaseEntries are the exported functions and methods of the root package
